@@ -486,5 +486,5 @@ def run(ctx):
 
     # ---- R01.10 the source side of "a filesystem change under a watched path": registration rules owned by C13
     ctx.rule("R01.10", "a filesystem change under a watched path can only become an event if the path is registered with the watcher")
-    ctx.borrow("C13", ["R13.1", "R13.2", "R13.9"], "R01.10",
+    ctx.borrow("C13", ["R13.1", "R13.2", "R13.3", "R13.9"], "R01.10",
                "configuration changes are not lost, the shadow set is reset with the watcher, and the round's diff registers every configured path")
